@@ -18,6 +18,9 @@ type RCRes struct {
 	FromT int64
 	// Deleted is set when a delete event arrived after the data.
 	Deleted bool
+	// Tentative is set while the resource is kept only by a subscribe
+	// request that has not been answered yet.
+	Tentative bool
 }
 
 // Viol is a violation found by a monitor.
@@ -62,6 +65,7 @@ type RefClient struct {
 	Direct    map[string]int
 	Uncertain map[string]bool // direct count not derivable from the frames
 	pool      map[string]*RCRes
+	poolKeep  map[string]*RCRes
 
 	sent      map[uint64]*SentReq
 	Responses map[uint64]int
@@ -71,11 +75,15 @@ type RefClient struct {
 	// HandT is the clock of the frame that (last) handed the rid to the client.
 	HandT map[string]int64
 	// DropT is the clock of the frame after which the client stopped holding rid.
-	DropT    map[string]int64
-	Unsubs   []UnsubCheck
-	Redundant int // resources re-sent although already held
-	Frames   int
-	Events   int
+	DropT map[string]int64
+	// DropPending marks rids the client dropped while one of its requests was
+	// still unanswered (the gateway may count that request as a subscription).
+	DropPending    map[string]bool
+	Unsubs         []UnsubCheck
+	Redundant      int // resources re-sent although already held
+	GetRootMissing int
+	Frames         int
+	Events         int
 	// Overlap reports whether another request on the same rid is outstanding
 	// (set by the driver; nil = never).
 	Overlap func(rid string, id uint64) bool
@@ -90,11 +98,29 @@ func NewRefClient(conn, ver int) *RefClient {
 		Cache: map[string]*RCRes{}, Direct: map[string]int{}, Uncertain: map[string]bool{},
 		pool: map[string]*RCRes{}, sent: map[uint64]*SentReq{}, Responses: map[uint64]int{},
 		RespFrame: map[uint64]*Frame{},
-		Delivered: map[string][]DelivEv{}, HandT: map[string]int64{}, DropT: map[string]int64{},
+		Delivered: map[string][]DelivEv{}, HandT: map[string]int64{}, DropT: map[string]int64{}, DropPending: map[string]bool{},
 	}
 }
 
+// anyPending reports whether a request other than unsubscribe/version sent
+// before t is still unanswered.
+func (rc *RefClient) anyPending(t int64) bool {
+	for id, sr := range rc.sent {
+		if sr.Fence || sr.T >= t || rc.Responses[id] != 0 {
+			continue
+		}
+		if strings.HasPrefix(sr.Method, "unsubscribe.") || sr.Method == "version" {
+			continue
+		}
+		return true
+	}
+	return false
+}
+
 func (rc *RefClient) viol(prop string, t int64, rid, sig, format string, a ...interface{}) {
+	if prop == "C02" && rc.DropPending[rid] {
+		sig += ".droppedWhilePending"
+	}
 	rc.Viol = append(rc.Viol, Viol{Prop: prop, Conn: rc.Conn, T: t, RID: rid, Sig: sig, Msg: fmt.Sprintf(format, a...)})
 }
 
@@ -149,7 +175,7 @@ func (r *RCRes) refs() []string {
 func (rc *RefClient) ingest(rs *resourceSet, t int64) (rids []string) {
 	add := func(rid string, res *RCRes) {
 		rids = append(rids, rid)
-		if _, ok := rc.Cache[rid]; ok {
+		if old, ok := rc.Cache[rid]; ok && !old.Deleted && !old.Tentative {
 			// Already held: a client keeps its existing instance.
 			rc.Redundant++
 			return
@@ -157,6 +183,7 @@ func (rc *RefClient) ingest(rs *resourceSet, t int64) (rids []string) {
 		res.FromT = t
 		rc.Cache[rid] = res
 		rc.HandT[rid] = t
+		delete(rc.DropPending, rid)
 	}
 	for rid, raw := range rs.Models {
 		var m map[string]interface{}
@@ -193,6 +220,28 @@ func (rc *RefClient) ingest(rs *resourceSet, t int64) (rids []string) {
 func (rc *RefClient) gc(t int64, fromGet []string) {
 	reach := map[string]bool{}
 	var stack []string
+	visit := func() {
+		for len(stack) > 0 {
+			rid := stack[len(stack)-1]
+			stack = stack[:len(stack)-1]
+			for _, ref := range rc.Cache[rid].refs() {
+				if reach[ref] {
+					continue
+				}
+				if _, ok := rc.Cache[ref]; !ok {
+					if p, ok := rc.pool[ref]; ok {
+						rc.Cache[ref] = p
+						rc.HandT[ref] = t
+					} else {
+						rc.viol("C02", t, ref, "dangling", "resource %s holds a reference to %s which the client has neither data nor error for", rid, ref)
+						continue
+					}
+				}
+				reach[ref] = true
+				stack = append(stack, ref)
+			}
+		}
+	}
 	for rid, n := range rc.Direct {
 		if n > 0 || rc.Uncertain[rid] {
 			if _, ok := rc.Cache[rid]; !ok {
@@ -212,24 +261,30 @@ func (rc *RefClient) gc(t int64, fromGet []string) {
 			}
 		}
 	}
-	for len(stack) > 0 {
-		rid := stack[len(stack)-1]
-		stack = stack[:len(stack)-1]
-		for _, ref := range rc.Cache[rid].refs() {
-			if reach[ref] {
-				continue
+	visit()
+	confirmed := map[string]bool{}
+	for rid := range reach {
+		confirmed[rid] = true
+		rc.Cache[rid].Tentative = false
+	}
+	// A subscribe request that has been sent but not answered yet keeps the
+	// resource (if the client has it) like a direct subscription: real
+	// clients count the subscription when they send the request, and the
+	// protocol does not say otherwise. What is kept only this way is
+	// tentative: a later resource set may replace it.
+	for id, sr := range rc.sent {
+		if sr.T < t && rc.Responses[id] == 0 && strings.HasPrefix(sr.Method, "subscribe.") {
+			rid := sr.Method[len("subscribe."):]
+			if _, held := rc.Cache[rid]; held && !reach[rid] {
+				reach[rid] = true
+				stack = append(stack, rid)
 			}
-			if _, ok := rc.Cache[ref]; !ok {
-				if p, ok := rc.pool[ref]; ok {
-					rc.Cache[ref] = p
-					rc.HandT[ref] = t
-				} else {
-					rc.viol("C02", t, ref, "dangling", "resource %s holds a reference to %s which the client has neither data nor error for", rid, ref)
-					continue
-				}
-			}
-			reach[ref] = true
-			stack = append(stack, ref)
+		}
+	}
+	visit()
+	for rid := range reach {
+		if !confirmed[rid] {
+			rc.Cache[rid].Tentative = true
 		}
 	}
 	newPool := map[string]*RCRes{}
@@ -244,8 +299,13 @@ func (rc *RefClient) gc(t int64, fromGet []string) {
 			}
 			delete(rc.Cache, rid)
 			rc.DropT[rid] = t
+			rc.DropPending[rid] = rc.anyPending(t)
 		}
 	}
+	for k, v := range rc.poolKeep {
+		newPool[k] = v
+	}
+	rc.poolKeep = nil
 	rc.pool = newPool
 }
 
@@ -352,8 +412,12 @@ func (rc *RefClient) processResponse(f *Frame) {
 		}
 		fromGet = rc.ingest(&rs, f.T)
 		// The requested root must be part of the answer unless already held.
+		// The gateway answers get requests with a delta against what it
+		// believes the client was sent before (an overlapping get may have
+		// delivered the root already); no property demands more, so this is
+		// only counted.
 		if _, ok := rc.Cache[rid]; !ok {
-			rc.viol("C02", f.T, rid, "getRootMissing", "get response does not deliver %s and the client does not hold it", rid)
+			rc.GetRootMissing++
 		}
 	case "unsubscribe":
 		rc.noteUnsub(req, rid, true, "")
@@ -396,13 +460,13 @@ func (rc *RefClient) noteUnsub(req *SentReq, rid string, ok bool, code string) {
 	rc.Unsubs = append(rc.Unsubs, UnsubCheck{RID: rid, Count: count, BadParams: bad, Before: rc.Direct[rid], Certain: certain, OK: ok, Code: code})
 	if ok {
 		rc.Direct[rid] -= count
-		if rc.Direct[rid] <= 0 {
-			if rc.Direct[rid] < 0 && certain {
-				// reported through Unsubs by the C08 monitor
-			}
+		if rc.Direct[rid] < 0 {
 			rc.Direct[rid] = 0
-			rc.Uncertain[rid] = false
 		}
+	} else if code == "system.noSubscription" && count == 1 && !bad && rc.Uncertain[rid] {
+		// A failing unsubscribe of one settles an uncertain count at zero.
+		rc.Direct[rid] = 0
+		rc.Uncertain[rid] = false
 	}
 }
 
@@ -445,7 +509,13 @@ func (rc *RefClient) processEvent(f *Frame) {
 	rid, ev := splitEvent(f.Event)
 	res, held := rc.Cache[rid]
 	if !held {
-		rc.viol("C02", f.T, rid, "strayEvent", "event %s for a resource the client does not hold: %s", f.Event, f.Raw)
+		sig := "strayEvent"
+		if p, ok := rc.pool[rid]; ok {
+			// delivered by a get response in the directly preceding frame(s)
+			sig = "strayEvent.afterGet"
+			rc.poolKeep = map[string]*RCRes{rid: p}
+		}
+		rc.viol("C02", f.T, rid, sig, "event %s for a resource the client does not hold: %s", f.Event, f.Raw)
 		if ev == "unsubscribe" {
 			rc.Direct[rid] = 0
 			rc.Uncertain[rid] = false
